@@ -36,7 +36,7 @@ for mf in sorted(glob.glob(os.path.join(root, "seeded", "*", "meta.json"))):
         caught += " †"
     lines.append("| `%s` | %s | %s | %s |" % (m["id"], m["property_broken"], m["needs_to_manifest"].replace("|", "/"), caught))
 n_dagger = sum(1 for mf in glob.glob(os.path.join(root, "seeded", "*", "meta.json")) if "only after" in (json.load(open(mf)).get("note") or ""))
-lines.append("\n† caught only after the harness was strengthened in response to that change (%d of %d; the `note` in its `meta.json` says what was missing and what was added). All others were caught by the harness as it stood when the change was written. `seeded/run_all.sh` re-runs the whole corpus against the current harness.\n" % (n_dagger, len(glob.glob(os.path.join(root, "seeded", "*", "meta.json")))))
+lines.append("\n† caught only after the harness was strengthened in response to that change (%d of %d; the `note` in its `meta.json` says what was missing and what was added). All others were caught by the harness as it stood when the change was written, except those marked **not caught**: changes kept as boundary cases because, on reading, they do not break the property as stated (their `meta.json` argues why; no check was added or loosened for them). `seeded/run_all.sh` re-runs the whole corpus against the current harness.\n" % (n_dagger, len(glob.glob(os.path.join(root, "seeded", "*", "meta.json")))))
 benign = sorted(glob.glob(os.path.join(root, "seeded", "benign", "*", "meta.json")))
 if benign:
     lines.append("\n### 12.2b Independently written property-PRESERVING changes (false-alarm test)\n")
